@@ -230,3 +230,45 @@ func (c *Ctx) ruleValueCarry(exempt map[string]string) {
 
 var _ = strings.TrimSpace
 var _ = token.ADD
+
+// R-NILVALUE/copy: a value copied into a node's StorageValue keeps the nil/empty distinction.
+func (c *Ctx) ruleEmptyCopy(dirs ...string) {
+	c.doc("R-NILVALUE/copy", "no store into Node.StorageValue is an append onto a nil slice: append(nil, v...) of an empty non-nil v is nil, so a stored empty value disappears from the copy (Copy, snapshots, merges)")
+	n := 0
+	for _, dir := range dirs {
+		sp := c.ssaPkg(dir)
+		if sp == nil {
+			continue
+		}
+		for _, f := range allFuncs(c, sp) {
+			ord := 0
+			eachInstr(f, func(_ *ssa.BasicBlock, _ int, in ssa.Instruction) {
+				st, ok := in.(*ssa.Store)
+				if !ok {
+					return
+				}
+				fa, ok := st.Addr.(*ssa.FieldAddr)
+				if !ok || fieldVar(fa) == nil || fieldVar(fa).Name() != "StorageValue" || !isNodePtr(fa.X.Type()) {
+					return
+				}
+				n++
+				ord++
+				bad := false
+				if call, ok := st.Val.(*ssa.Call); ok && calleeName(&call.Call) == "builtin.append" && len(call.Call.Args) == 2 {
+					base := call.Call.Args[0]
+					if sl, ok := base.(*ssa.Slice); ok {
+						base = sl.X
+					}
+					if k, ok := base.(*ssa.Const); ok && k.Value == nil {
+						bad = true
+					}
+				}
+				c.ob("R-NILVALUE/copy", fmt.Sprintf("%s:StorageValue-store#%d", relName(f.String()), ord), st.Pos(), !bad,
+					shortFn(f)+" stores append(nil, v...) into a node's StorageValue: an empty non-nil v becomes nil and the stored empty value is lost")
+			})
+		}
+	}
+	if n == 0 {
+		c.unresolved("stores into Node.StorageValue")
+	}
+}
